@@ -405,7 +405,7 @@ def shapes(tier, seed):
     rnd = random.Random(seed)
     q = tier == "quick"
     out, seen = [], set()
-    pol = dict(mod_range=(-3, 3), threshold="fork")
+    pol = dict(mod_range=(-5, 5), threshold="fork")       # sums of up to 3 angles in [-3pi, 3pi]
 
     def add(name, fn, kw, **skw):
         if name in seen:
